@@ -122,13 +122,48 @@ class Ownership:
                     if any(o in partial for o in ops) and not any(o in A and o not in partial for o in ops):
                         partial.add(ins.res); changed = True
 
-        def event(ins):
+        def dead_alias(a, facts):
+            """operand a is (derived from) a merge that, on this path, received something else than this object"""
+            if not facts:
+                return False
+            x, n_ = a, 0
+            while n_ < 8:
+                if ('~' + x, True) in facts:
+                    return True
+                d_ = fn.defs.get(x)
+                if d_ is None or d_.op not in ('bitcast', 'getelementptr'):
+                    return False
+                x = d_.ops[0]; n_ += 1
+            return False
+
+        def edge_facts(b_, nb_, facts):
+            """merges of nb_ that belong to the alias set but take another value (NULL, another object) along b_ -> nb_ do not
+            denote this object on the paths through that edge"""
+            add, drop = set(), set()
+            for ph in nb_.insts:
+                if ph.op != 'phi':
+                    break
+                if ph.res in A:
+                    inc = [v for v, l in ph.incoming if l == b_.label]
+                    if inc and inc[0] not in A and not dead_alias(inc[0], facts):
+                        add.add(('~' + ph.res, True))
+                    elif inc and dead_alias(inc[0], facts):
+                        add.add(('~' + ph.res, True))
+                    else:
+                        drop.add(('~' + ph.res, True))
+            if not add and not drop:
+                return facts
+            return frozenset((set(facts) - drop) | add)
+
+        def event(ins, facts=frozenset()):
             if ins.op == 'ret':
+                if ins.ops and ins.ops[0] in A and dead_alias(ins.ops[0], facts):
+                    return None
                 if ins.ops and ins.ops[0] in partial:
                     return 'ESC?', 'returned by a conditional expression whose other value is NULL'
                 if ins.ops and ins.ops[0] in A:
                     return 'ESC', 'returned'
-            if ins.op == 'store' and ins.ops[0] in A:
+            if ins.op == 'store' and ins.ops[0] in A and not dead_alias(ins.ops[0], facts):
                 if strip_ptr_casts(fn, ins.ops[1]) in slots:
                     return None
                 if strip_ptr_casts(fn, ins.ops[1]) in outparams:
@@ -137,7 +172,7 @@ class Ownership:
             if ins.op == 'call' and ins is not site:
                 cs = self.callees(fn, ins)
                 for ai, a in enumerate(ins.ops):
-                    if a in A:
+                    if a in A and not dead_alias(a, facts):
                         for c in cs or [ins.callee]:
                             if ai in self.frees.get(c, ()):
                                 return 'FREE', c
@@ -170,7 +205,7 @@ class Ownership:
             b, idx, st, facts = work.pop()
             cur = set(st)
             for ins in b.insts[idx:]:
-                ev = event(ins)
+                ev = event(ins, facts)
                 if ev:
                     if ev[0] == 'FREE':
                         if 'F' in cur:
@@ -220,7 +255,7 @@ class Ownership:
                         is_null_edge = (nullinfo == 'eq' and k2 == 0) or (nullinfo == 'ne' and k2 == 1)
                         if is_null_edge:
                             nst = {('N' if s == 'O' else s) for s in nst}
-                    self._push(work, seen, fn.blocks[lab], frozenset(nst), nfacts)
+                    self._push(work, seen, fn.blocks[lab], frozenset(nst), edge_facts(b, fn.blocks[lab], nfacts))
             else:
                 for lab in (t.targets or []):
                     nb = fn.blocks[lab]
@@ -239,7 +274,7 @@ class Ownership:
                                 # this edge returns something else (NULL, an error value) while the object is still owned
                                 reports.append(('leak', site, b.insts[-1], ''))
                                 nst = {x for x in nst if x != 'O'} | {'E'}
-                    self._push(work, seen, nb, frozenset(nst), facts)
+                    self._push(work, seen, nb, frozenset(nst), edge_facts(b, nb, facts))
         # leaks found at the merged return block are attributed to the edges that bring the owned state in
         return reports
 
